@@ -61,6 +61,8 @@ func runLine(line string) core.Outcome {
 	switch f[0] {
 	case "ca":
 		return runCA(line, f[1])
+	case "cs":
+		return runCS(line, f[1])
 	case "as":
 		return runAS(line, f[1])
 	case "fs":
@@ -384,6 +386,85 @@ func (prop) Generate(rng *core.Rand, tier string, emit0 func(string)) {
 		emit(fmt.Sprintf("rs %s %s %s", rrs.Pick(rsEnvs), rrs.Pick(rsFiles), strings.Join(evs, ";")))
 	}
 
+	// ---- which storage the CA lives on (`cs`): the CA's own `storage` module added / dropped / replaced by reloads,
+	// every interruption point of a creation on one storage between start-ups on the other
+	for _, m := range []string{"cb", "ca", "fb", "fa"} {
+		for k := 1; k <= 10; k++ {
+			emit(fmt.Sprintf("cs gl:-;ol:%d%s;gl:-;ol:-;gs:-;ol:-", k, m))
+			emit(fmt.Sprintf("cs ol:%d%s;gl:%d%s;ol:-;gl:-;os:-;gl:-", k, m, 11-k, m))
+		}
+	}
+	nCS := 20
+	if tier == "thorough" {
+		nCS = 600
+	} else if tier == "search" {
+		nCS = 100
+	}
+	rcs := rng.Fork()
+	for c := 0; c < nCS; c++ {
+		var evs []string
+		for i, n := 0, 2+rcs.Intn(7); i < n; i++ {
+			f := "-"
+			if rcs.Chance(2, 5) {
+				f = fmt.Sprintf("%d%s", 1+rcs.Intn(12), rcs.Pick([]string{"cb", "ca", "fb", "fa"}))
+			}
+			evs = append(evs, rcs.Pick([]string{"g", "o"})+rcs.Pick([]string{"l", "l", "s"})+":"+f)
+		}
+		evs = append(evs, "gl:-", "ol:-")
+		emit("cs " + strings.Join(evs, ";"))
+	}
+
+	// ---- the /load endpoint itself (caddyconfig/load.go handleLoad): Caddyfile bodies (`text/caddyfile`: what is
+	// saved is the ADAPTED document), `Cache-Control: must-revalidate` (F: forced — an unchanged document is loaded
+	// and saved again) and a header that merely CONTAINS it (G: compared with ==, not forced), refused bodies
+	for _, e := range []string{"x-h1", "x0h1", "x-h-"} {
+		for _, fl := range []string{".", "x=2"} {
+			emit(fmt.Sprintf("rs %s %s S:-:1p;P:c2d;P:c2d;F:c2d;G:c2d;P:c3b;K;S:r:9d;F:c2d;G:c4n;F:c4n;K;S:r:9d", e, fl))
+			emit(fmt.Sprintf("rs %s %s S:-:c5d;P:c5d;F:c5d;G:c5d;P:c6n;F:c6n;P:c7b;F:c7b;P:c7d;Q:1p;K;S:r:1n;F:1n;F:2p;G:2p;F:2px;K;S:r:1n", e, fl))
+			emit(fmt.Sprintf("rs %s %s S:-:1n;F:1n;F:2pk;F:2pk;G:2pk;P:c4b;P:c4d;F:3dk;K;S:r:1d;F:3dk", e, fl))
+			emit(fmt.Sprintf("rs %s %s S:-:1p;M:2p;X:2p;Y:2p;X:c3d;Y:1p;M:c3d;P:2p;Y:2p;K;S:r:9d", e, fl))
+		}
+	}
+	nEP := 8
+	if tier == "thorough" {
+		nEP = 200
+	} else if tier == "search" {
+		nEP = 40
+	}
+	rep := rng.Fork()
+	for c := 0; c < nEP; c++ {
+		var evs []string
+		last := "1p"
+		if rep.Chance(1, 3) {
+			last = "c1d"
+		}
+		evs = append(evs, "S:"+rep.Pick([]string{"r", "-"})+":"+last)
+		next := 1
+		for i, n := 0, 3+rep.Intn(7); i < n; i++ {
+			switch rep.Intn(8) {
+			case 0:
+				evs = append(evs, "K", fmt.Sprintf("S:r:%d%s", 50+i, rep.Pick([]string{"p", "d", "n"})))
+				continue
+			}
+			tok := last
+			if !rep.Chance(2, 5) { // otherwise: the document pushed before, once more
+				next++
+				if rep.Chance(1, 2) {
+					tok = fmt.Sprintf("c%d%s", next, rep.Pick([]string{"d", "d", "n", "b"}))
+				} else {
+					tok = fmt.Sprintf("%d%s%s", next, rep.Pick([]string{"p", "d", "n"}), rep.Pick([]string{"", "", "", "x", "i", "k"}))
+				}
+			}
+			kind := rep.Pick([]string{"P", "P", "F", "F", "F", "G", "G", "M", "X", "Y"})
+			evs = append(evs, kind+":"+tok)
+			if !strings.Contains("MXY", kind) {
+				last = tok
+			}
+		}
+		evs = append(evs, "K", "S:r:99d")
+		emit(fmt.Sprintf("rs %s %s %s", rep.Pick(rsEnvs), rep.Pick(rsFiles), strings.Join(evs, ";")))
+	}
+
 	// ---- autosave, systematic: persistence on/off/default, rejected loads, unchanged config,
 	// forced reload, @id, null config, restarts
 	emit("as L1:d:-;L1:d:-;L1:df:-;L2:p:-;L3:n:-;L3:n:-;L4:px:-;L5:dy:-;L6:dj:-;L7:di:-;R;L7:di:-;L8:n:-;R;L9:d:-")
@@ -485,7 +566,7 @@ func (prop) Generate(rng *core.Rand, tier string, emit0 func(string)) {
 	// ---- malformed
 	bad := []string{"ca", "ca ", "ca x", "ca l", "ca l:", "ca l:0cb", "ca l:3xx", "ca m:-", "ca l:-;", "ca l:-;;l:-", "ca l:-3cb", "ca m", "ca m:", "ca m:0cb", "ca m:-:-", "ca d:xx", "ca c:rc", "ca c:rc>zz", "ca d:", "ca c:rc>rk>ik",
 		"as", "as L", "as L1", "as L1:d", "as L1:q:-", "as L1:d:K0", "as L1:d:X1", "as L1:dd:-", "as Lx:d:-", "as R;", "as L1:d:K1;L2:d:F1", "as U:", "as u", "as L1:d:-;UU",
-		"rs", "rs x-h1", "rs x-h1 .", "rs x-h1 . Q", "rs xzh1 . K", "rs x-h1 x=- K", "rs x-h1 x=2,x=3 K", "rs x-h1 . S:r:1px", "rs x-h1 . P:1q", "rs x-h1 . S:z:1p", "rs x-h1dz . K", "rs x-h1d . K", "rs x-h1 d=- K", "rs x-h1 . S:-:1pxk", "rs x-h1 . S:-:c1dk", "rs x-h1 . Q:1pk", "rs x-h1 . I:c1d", "rs x-h1 . P:1piu", "rs x-h1 . Q:1pv", "rs x-h1 . S:-:1pik", "rs x-h1 . S:-:c1p", "rs x-h1 . S:-:c1nx", "rs x-h1 . P:c1d", "rs x-h1 . S:-:c", "fs", "fs l", "fs l:K0", "fs l:X1", "fs m:-", "fs l:-;", "fs l:3cb", "zz l:-", "ca l:- extra", "as L1:dff:-", "ca l:1cb:2", "as L1:d:-:3"}
+		"rs", "rs x-h1", "rs x-h1 .", "rs x-h1 . Q", "rs xzh1 . K", "rs x-h1 x=- K", "rs x-h1 x=2,x=3 K", "rs x-h1 . S:r:1px", "rs x-h1 . P:1q", "rs x-h1 . S:z:1p", "rs x-h1dz . K", "rs x-h1d . K", "rs x-h1 d=- K", "rs x-h1 . S:-:1pxk", "rs x-h1 . S:-:c1dk", "rs x-h1 . Q:1pk", "rs x-h1 . I:c1d", "rs x-h1 . P:1piu", "rs x-h1 . Q:1pv", "rs x-h1 . S:-:1pik", "rs x-h1 . S:-:c1p", "rs x-h1 . S:-:c1nx", "rs x-h1 . P:c1p", "rs x-h1 . S:-:c1b", "rs x-h1 . Q:c1d", "rs x-h1 . F:c1bx", "rs x-h1 . H:1p", "rs x-h1 . MX:1p", "rs x-h1 . Y:c1p", "rs x-h1 . F", "rs x-h1 . S:-:c", "cs", "cs l:-", "cs gm:-", "cs gd:rc", "cs xl:-", "cs gl:0cb", "cs gl:-;", "cs gl:- x", "fs", "fs l", "fs l:K0", "fs l:X1", "fs m:-", "fs l:-;", "fs l:3cb", "zz l:-", "ca l:- extra", "as L1:dff:-", "ca l:1cb:2", "as L1:d:-:3"}
 	for _, b := range bad {
 		emit(b)
 	}
